@@ -83,6 +83,12 @@ impl Decimal {
         ensures (self.v() >= 0real ==> 0real <= r.v() <= self.v() && self.v() - r.v() < 1real), (self.v() <= 0real ==> self.v() <= r.v() <= 0real && r.v() - self.v() < 1real)
     { unimplemented!() }
 }
+/// R22 `x.chars().collect()` into a Vec<char>: the characters of the text; String::with_capacity / String::push as on a Vec<char>
+#[verifier::external_body]
+pub fn verif_chars_vec<S: VerifShow + ?Sized>(s: &S) -> (r: Vec<char>)
+    ensures r@ == s.show(), r@.len() <= usize::MAX / 8   // (a Vec<char> never holds more than isize::MAX / 4 elements)
+{ unimplemented!() }
+pub assume_specification[ String::with_capacity ](n: usize) -> (r: String) ensures r@ == Seq::<char>::empty();
 /// R22 `x.split(c)` on a string with a char pattern: the pieces are an uninterpreted function of text and separator; `next()` yields them in order
 pub uninterp spec fn split_pieces(s: Seq<char>, c: char) -> Seq<Seq<char>>;
 #[verifier::external_body]
